@@ -67,6 +67,11 @@ pub enum Native {
 	MutRefsVia(u8, usize, u8),
 	/// `RefLockCollection::from(&data)` over the shared `[Vec<RwLock>; 2]` listed against its address order
 	VecsFromRef,
+	/// `[&RwLock; 3]` through the `unsafe` `new_unchecked` constructors (duplicate-free by construction here)
+	Arr3Unchecked(Kind, [usize; 3]),
+	/// the shared descending owned unit itself, and Boxed::new_ref / Ref::new / Retrying::new_ref over a reference to it
+	OwnedDescItself(usize),
+	OwnedDescRef(Kind, usize),
 	/// two distinct zero-sized members (empty owned collections): duplicate-free by identity
 	ZstPair(Kind),
 	/// zero-sized members around two references r_i, r_j: a duplicate iff i == j
@@ -102,7 +107,7 @@ impl Spec {
 		match self {
 			Spec::Coll(Kind::Retry, _) => true,
 			Spec::Pois(i) => i.retrying(),
-			Spec::Native(n) => matches!(n, Native::Arr3(Kind::Retry, _) | Native::TupMR(Kind::Retry, ..) | Native::Slice(Kind::Retry, _) | Native::NewOW(Kind::Retry, _) | Native::VecsNew(Kind::Retry) | Native::VecsRefs(Kind::Retry) | Native::MutRefs(2, _) | Native::MutRefsVia(2, ..) | Native::TupN(2, _) | Native::ZstOwned(2, _) | Native::OwnedDescIn(Kind::Retry, _) | Native::ZstPair(Kind::Retry) | Native::ZstAround(Kind::Retry, ..) | Native::RetryNewVec(_) | Native::RetryNewArr3 | Native::RetryOwnedR(_)),
+			Spec::Native(n) => matches!(n, Native::Arr3(Kind::Retry, _) | Native::Arr3Unchecked(Kind::Retry, _) | Native::TupMR(Kind::Retry, ..) | Native::Slice(Kind::Retry, _) | Native::NewOW(Kind::Retry, _) | Native::VecsNew(Kind::Retry) | Native::VecsRefs(Kind::Retry) | Native::MutRefs(2, _) | Native::MutRefsVia(2, ..) | Native::TupN(2, _) | Native::ZstOwned(2, _) | Native::OwnedDescIn(Kind::Retry, _) | Native::OwnedDescRef(Kind::Retry, _) | Native::ZstPair(Kind::Retry) | Native::ZstAround(Kind::Retry, ..) | Native::RetryNewVec(_) | Native::RetryNewArr3 | Native::RetryOwnedR(_)),
 			_ => false,
 		}
 	}
@@ -122,7 +127,7 @@ impl Spec {
 			Spec::Coll(_, ms) => ms.iter().flat_map(|m| m.arena_leaves()).collect(),
 			Spec::Pois(i) => i.arena_leaves(),
 			Spec::Native(n) => match n {
-				Native::Arr3(_, a) => a.iter().map(|i| R0 + *i as u32).collect(),
+				Native::Arr3(_, a) | Native::Arr3Unchecked(_, a) => a.iter().map(|i| R0 + *i as u32).collect(),
 				Native::TupMR(_, m, r) => vec![M0 + *m as u32, R0 + *r as u32],
 				Native::Slice(_, v) => v.iter().map(|i| R0 + *i as u32).collect(),
 				Native::BoxedTupVecs(ms, rs) => ms.iter().map(|i| M0 + *i as u32).chain(rs.iter().map(|i| R0 + *i as u32)).collect(),
@@ -182,7 +187,7 @@ impl Spec {
 			Spec::Native(n) => {
 				let s = format!("{:?}", n);
 				s.split(|c| c == '(' || c == '[').next().unwrap().to_string() + &match n {
-					Native::Arr3(k, _) | Native::TupMR(k, ..) | Native::Slice(k, _) | Native::NewOW(k, _) | Native::VecsNew(k) | Native::VecsRefs(k) | Native::ZstPair(k) | Native::ZstAround(k, ..) | Native::OwnedDescIn(k, _) => format!("<{}>", k.short()),
+					Native::Arr3(k, _) | Native::Arr3Unchecked(k, _) | Native::TupMR(k, ..) | Native::Slice(k, _) | Native::NewOW(k, _) | Native::VecsNew(k) | Native::VecsRefs(k) | Native::ZstPair(k) | Native::ZstAround(k, ..) | Native::OwnedDescIn(k, _) | Native::OwnedDescRef(k, _) => format!("<{}>", k.short()),
 					_ => String::new(),
 				}
 			}
@@ -211,11 +216,13 @@ pub struct World<'w> {
 	pub next_unit: Cell<u32>,
 	/// shared owned data for the Vecs* native shapes: ([hi_vec, lo_vec], leaf ids of hi, leaf ids of lo)
 	pub vecs: RefCell<Option<(&'w [Vec<R>; 2], Vec<u32>, Vec<u32>)>>,
+	/// shared owned unit whose `n` `&mut` members are listed in descending address order: (unit, leaves as listed)
+	pub owned_desc: RefCell<Option<(usize, &'w OwnedLockCollection<Vec<&'w mut R>>, Vec<u32>)>>,
 }
 
 impl<'w> World<'w> {
 	pub fn new(arena: &'w Arena, store: &'w Store) -> Self {
-		World { arena, store, next_id: Cell::new(ARENA_TOTAL), is_rw: RefCell::new(Arena::is_rw_table()), unit: RefCell::new(Arena::unit_table()), next_unit: Cell::new(100), vecs: RefCell::new(None) }
+		World { arena, store, next_id: Cell::new(ARENA_TOTAL), is_rw: RefCell::new(Arena::is_rw_table()), unit: RefCell::new(Arena::unit_table()), next_unit: Cell::new(100), vecs: RefCell::new(None), owned_desc: RefCell::new(None) }
 	}
 	fn fresh(&self, rw: bool, unit: u32) -> u32 {
 		let id = self.next_id.get();
@@ -345,6 +352,23 @@ impl<'w> World<'w> {
 		(data, hi_ids, lo_ids)
 	}
 
+	/// The world's shared descending owned unit (one size per world).
+	fn shared_owned_desc(&self, n: usize) -> (&'w OwnedLockCollection<Vec<&'w mut R>>, Vec<u32>) {
+		if let Some((m, ow, leaves)) = self.owned_desc.borrow().as_ref() {
+			assert!(*m == n, "harness: one size of shared descending owned unit per world");
+			return (*ow, leaves.clone());
+		}
+		let unit = self.new_unit();
+		let (v, ids) = self.fresh_rs(n, unit);
+		let boxed: &'w mut Box<[R]> = self.store.stash_mut(v.into_boxed_slice());
+		let mut refs: Vec<&'w mut R> = boxed.iter_mut().collect();
+		refs.reverse();
+		let ow: &'w OwnedLockCollection<Vec<&'w mut R>> = self.store.stash(OwnedLockCollection::new(refs));
+		let leaves: Vec<u32> = ids.iter().rev().copied().collect();
+		*self.owned_desc.borrow_mut() = Some((n, ow, leaves.clone()));
+		(ow, leaves)
+	}
+
 	fn fresh_rs(&self, n: usize, unit: u32) -> (Vec<R>, Vec<u32>) {
 		let mut v = vec![];
 		let mut ids = vec![];
@@ -358,6 +382,7 @@ impl<'w> World<'w> {
 
 	/// Build a top-level target. `None` = a checked constructor rejected the input.
 	pub fn build(&self, s: &Spec) -> Option<Target<'w>> {
+		let _scope = crate::halloc::BuildScope::enter();
 		let a = self.arena;
 		let st = self.store;
 		let mut leaves = s.arena_leaves();
@@ -557,20 +582,29 @@ impl<'w> World<'w> {
 					}
 				}
 				Native::OwnedDescIn(k, n) => {
-					let unit = self.new_unit();
-					let (v, ids) = self.fresh_rs(*n, unit);
-					let boxed: &'w mut Box<[R]> = st.stash_mut(v.into_boxed_slice());
-					let mut refs: Vec<&'w mut R> = boxed.iter_mut().collect();
-					refs.reverse();
-					let ow: &'w OwnedLockCollection<Vec<&'w mut R>> = st.stash(OwnedLockCollection::new(refs));
+					let (ow, mut ls) = self.shared_owned_desc(*n);
 					let extra = self.fresh(true, 0);
 					let r: &'w R = st.stash(reg_r(extra));
-					leaves = ids.iter().rev().copied().collect();
-					leaves.push(extra);
+					ls.push(extra);
+					leaves = ls;
 					match k {
 						Kind::Boxed => st.stash(BoxedLockCollection::try_new((ow, r))?),
 						Kind::Ref => st.stash(RefLockCollection::try_new(st.stash((ow, r)))?),
 						Kind::Retry => st.stash(RetryingLockCollection::try_new((ow, r))?),
+					}
+				}
+				Native::OwnedDescItself(n) => {
+					let (ow, ls) = self.shared_owned_desc(*n);
+					leaves = ls;
+					ow
+				}
+				Native::OwnedDescRef(k, n) => {
+					let (ow, ls) = self.shared_owned_desc(*n);
+					leaves = ls;
+					match k {
+						Kind::Boxed => st.stash(BoxedLockCollection::new_ref(ow)),
+						Kind::Ref => st.stash(RefLockCollection::new(ow)),
+						Kind::Retry => st.stash(RetryingLockCollection::new_ref(ow)),
 					}
 				}
 				Native::ZstOwned(which, first) => {
@@ -614,6 +648,17 @@ impl<'w> World<'w> {
 					let (data, hi, lo) = self.shared_vecs();
 					leaves = hi.iter().chain(lo.iter()).copied().collect();
 					st.stash(RefLockCollection::from(data))
+				}
+				Native::Arr3Unchecked(k, ix) => {
+					assert!(ix[0] != ix[1] && ix[1] != ix[2] && ix[0] != ix[2], "harness: new_unchecked needs duplicate-free input");
+					let arr: [&R; 3] = [&a.r[ix[0]], &a.r[ix[1]], &a.r[ix[2]]];
+					unsafe {
+						match k {
+							Kind::Boxed => st.stash(BoxedLockCollection::new_unchecked(arr)),
+							Kind::Ref => st.stash(RefLockCollection::new_unchecked(st.stash(arr))),
+							Kind::Retry => st.stash(RetryingLockCollection::new_unchecked(arr)),
+						}
+					}
 				}
 				Native::VecsNew(k) => {
 					let (data, hi, lo) = self.shared_vecs();
